@@ -32,7 +32,8 @@ PROOFS = [
     Proof('resume/prepare_usleep', 'sched.c', 'h_prepare_usleep', kind='L', min_obligations=6),
     Proof('resume', 'cv.c', 'h_resume', kind='L', min_obligations=3),
 ]
-NATIVES = []
+NATIVES = [Native('native', 'native.cpp', args_quick=[400], args_thorough=[20000], timeout=3000, link_photon=True, cxxflags=['-fpermissive'])]
+REPLAY = 'native'
 AUX_VIOLATION = True    # no native oracle: a failing loop-rule obligation is reported (no-failing-input-found), see DESIGN §4
 TRUSTED = ['cbmc 6.11.0', 'lowering rules of specs/C03/spec.py']
 NOT_DECIDED = ['atomic release-and-wait (it IS the deferred unlock executed on the next thread\'s stack: assembly + scheduler)',
